@@ -1280,6 +1280,7 @@ def _cond_of_local(fn, slicer, bi, l, t, neg, depth):
             c = Cond(fn, bi, 'pred')
             c.pred = call.callee
             c.predcall = call
+            c.direct = direct_fields(fn, call.args[0]) if call.args else []
             A = set()
             for a in call.args:
                 A |= slicer.operand(fn, a)
@@ -1288,6 +1289,31 @@ def _cond_of_local(fn, slicer, bi, l, t, neg, depth):
             c.line = call.line
             return c
     return None
+
+
+def direct_fields(fn, op, depth=0):
+    """(adt, field) chain of the place an operand refers to *directly* (through `&place` temporaries and copies), without
+    following the base local's other definitions - i.e. which field a predicate such as `x.f.is_negative()` is about"""
+    if depth > 5 or op[0] not in ('c', 'm'):
+        return []
+    pl = op[1]
+    fs = place_fields(pl)
+    if fs:
+        return fs
+    ds = [d for d in fn.defs.get(pl[0], []) if d[0] == '=']
+    if len(ds) != 1:
+        return []
+    rv = ds[0][4]
+    if rv[0] in ('ref', 'rawptr'):
+        fs = place_fields(rv[2])
+        if fs:
+            return fs
+        return direct_fields(fn, ['c', rv[2]], depth + 1)
+    if rv[0] == 'use':
+        return direct_fields(fn, rv[1], depth + 1)
+    if rv[0] == 'cfd':
+        return direct_fields(fn, ['c', rv[1]], depth + 1)
+    return []
 
 
 def _mk_rel(fn, bi, rel, A, B, t, neg, line=None, ops=(frozenset(), frozenset())):
